@@ -11,7 +11,7 @@ import z3
 
 from .. import env
 from ..env import INCONCLUSIVE, PROVED, REFUTED, Result
-from ..pysym.bmc import System, Values
+from ..pysym.bmc import IVal, System, Values
 from ..pysym.cfg import ClassInfo, Model
 from ..pysym.interp import Unsupported
 from ..pysym.run import run_parallel
@@ -48,18 +48,18 @@ def seq_spec(vals: Values, vf, state, op, args):
         thr = vals.throws[1](f, state)
         new = vals.app[1](f, state)
         ok = z3.And(z3.Not(thr), valid(new))
-        return z3.If(ok, new, state), z3.If(ok, 1, 2), z3.If(ok, new, V.nil)
+        return z3.If(ok, new, state), z3.If(ok, IVal(1), IVal(2)), z3.If(ok, new, V.nil)
     if op == "reset":
         v = args[0]
         ok = valid(v)
-        return z3.If(ok, v, state), z3.If(ok, 1, 2), z3.If(ok, v, V.nil)
+        return z3.If(ok, v, state), z3.If(ok, IVal(1), IVal(2)), z3.If(ok, v, V.nil)
     if op == "compare_and_set":
         o, n = args
         ok = valid(n)
         hit = z3.Not(vals.ne(state, o))
-        return z3.If(z3.And(ok, hit), n, state), z3.If(ok, 1, 2), z3.If(ok, vals.b(hit), V.nil)
+        return z3.If(z3.And(ok, hit), n, state), z3.If(ok, IVal(1), IVal(2)), z3.If(ok, vals.b(hit), V.nil)
     if op == "deref":
-        return state, z3.IntVal(1), state
+        return state, IVal(1), state
     raise ValueError(op)
 
 
